@@ -891,10 +891,19 @@ func (c *Ctx) ruleMalformedEndsLink(rr *RuleRep) {
 				continue
 			}
 			bin, ok := iff.Cond.(*ssa.BinOp)
-			if !ok || bin.X != ssa.Value(flag) {
+			if !ok {
 				continue
 			}
-			k, isK := constInt(bin.Y)
+			// the flag compared with a constant, either way round; the constant may be spelt like where it is packed
+			// (`packetFromClient.b()`)
+			x, y := bin.X, bin.Y
+			if c.Resolve(stripConv(y)) == ssa.Value(flag) {
+				x, y = y, x
+			}
+			if c.Resolve(stripConv(x)) != ssa.Value(flag) {
+				continue
+			}
+			k, isK := c.constByte(y)
 			if !isK || k != want {
 				continue
 			}
